@@ -392,6 +392,8 @@ def run_history(ctx, rng, cfg, ops=None, battery_every=1, after_event=None, tag=
                 live.append([h2, S2])
             continue
         out = model.outcome(S, op)
+        if out.unknown:
+            ctx.inconclusive_case("model-branching-cap")
         if name in ("remove_edge", "remove_edges", "remove_node", "remove_nodes", "clear"):
             flags["removal"] = True
         if name in ("add_edge", "add_edges"):
@@ -417,21 +419,23 @@ def run_history(ctx, rng, cfg, ops=None, battery_every=1, after_event=None, tag=
             return {"cfg": cfg.describe(), "trace": trace, "raised": repr(raised),
                     "observed": S_after.describe(), "before": S.describe()}
 
-        if raised is not None:
+        if out.unknown:
+            pass
+        elif raised is not None:
             ctx.event("rejected")
             ctx.check(f"{tag}:rejection-admissible", out.may_raise,
                       f"{tag}:spurious-rejection:{name}:{type(raised).__name__}", wit, abort=True)
             rej = out.rejected if out.rejected is not None else [S]
-            ok = any(S_after.same(R) for R in rej)
+            ok = any(not R.diff(S_after) for R in rej)
             ctx.check(f"{tag}:rejected-leaves-state", ok,
                       f"{tag}:rejected-op-changed-state:{name}:" + ",".join(S_after.diff(S)), wit, abort=True)
         else:
             ctx.check(f"{tag}:must-reject", not out.must_raise, f"{tag}:accepted-invalid:{name}", wit, abort=True)
-            ok = any(S_after.same(R) for R in out.states)
+            ok = any(not R.diff(S_after) for R in out.states)
             if not ok:
-                best = min(out.states, key=lambda R: len(S_after.diff(R)))
+                best = min(out.states, key=lambda R: len(R.diff(S_after)))
                 ctx.check(f"{tag}:transition", False,
-                          f"{tag}:transition-mismatch:{name}:" + ",".join(S_after.diff(best)),
+                          f"{tag}:transition-mismatch:{name}:" + ",".join(best.diff(S_after)),
                           lambda: dict(wit(), expected=best.describe()), abort=True)
             else:
                 ctx.tick(f"{tag}:transition")
